@@ -1136,6 +1136,7 @@ impl ElementRaw {
             }
         }
         self.content.clear();
+        self.file_membership.clear();
         self.parent = ElementOrModel::None;
     }
 
